@@ -327,14 +327,21 @@ def macro_expr(rng: random.Random, depth: int, scope: List[Tuple[str, str]]):
     if depth <= 0 or r < 0.25:
         # a reference: to a macro variable (with optional field), or to a binding
         if scope and rng.random() < 0.6:
-            v, kind = rng.choice(scope)
+            vis = {}
+            for v, kind in reversed(scope):
+                vis[v] = kind
+            v, kind = rng.choice(sorted(vis.items()))
             return ["ref", v if (kind != "map" or rng.random() < 0.4) else v + "." + rng.choice(["k", "b", "zz"])]
         return ["ref", rng.choice(["a", "a.b", "x", "y", "y.k", "b", "a.b.c"])]
     if r < 0.45:
         return ["list", [macro_expr(rng, depth - 1, scope) for _ in range(rng.randint(1, 3))]]
     x = rng.choice(VARS)
     rr = rng.random()
-    lists = [v for v, kind in scope if kind == "list"]
+    seen, lists = set(), []
+    for v, kind in scope:                     # only the innermost binding of each name is visible
+        if v not in seen and kind == "list":
+            lists.append(v)
+        seen.add(v)
     if lists and rr < 0.3:
         rng_e, kind = ["ref", rng.choice(lists)], "int"      # iterate over an outer macro variable (a list element)
     elif rr < 0.5:
@@ -413,6 +420,8 @@ class C12(Prop):
         return run_impl(c)
 
     def model_line(self, c):
+        if c["kind"] == "macro" and namespace_as_value(c):
+            return None        # a leaked NameContainer object flowing on (into a macro variable): `ncobj` is opaque in the model
         pkg = c.get("pkg") or "-"
         d = c.get("decls", [])
         b = c["binds"]
